@@ -362,7 +362,8 @@ func vgCensus() int {
 	}
 	c := 0
 	for _, g := range strings.Split(string(buf), "\n\n") {
-		if strings.Contains(g, "(*monitoredConn).monitor") {
+		// a monitor that was started but has not run yet only shows its creator
+		if strings.Contains(g, "(*monitoredConn).monitor") || strings.Contains(g, "grpcgcp.newMonitoredConn") {
 			c++
 		}
 	}
